@@ -78,3 +78,15 @@ Proof.
   exists [("proposal", [1%N]); ("voteproofs", [2%N])], ["proposal"; "voteproofs"], ["voteproofs"; "proposal"].
   split; [apply Permutation.perm_swap|]. vm_compute. discriminate.
 Qed.
+
+(* No key that is decoded through a presence-tracking decoder (missing => non-zero default, e.g. HeightDecoder:
+   NilHeight) is written with omitempty: a zero value (genesis height) is always present in the encoding.
+   (Regenerated from the struct tags on every run; the point, manifest, state, suffrage tables are covered.) *)
+Theorem C27_no_omitempty_on_sentinel_decoded : omit_on_sentinel = [].
+Proof. vm_compute. reflexivity. Qed.
+
+Example C27_sentinel_fields_nonvacuous :
+  sentinel_key_listed "base.pointJSONMarshaler" "height" = true /\
+  sentinel_key_listed "isaac.ManifestJSONMarshaler" "height" = true /\
+  sentinel_key_listed "base.baseStateJSONMarshaler" "height" = true.
+Proof. vm_compute. repeat split; reflexivity. Qed.
